@@ -121,6 +121,10 @@ pub struct Content {
     pub n_use_items: usize,
     /// comments that stand behind a token on its line
     pub n_trailing_comments: usize,
+    /// raw texts of the comment tokens (trimmed)
+    pub comment_texts: Vec<String>,
+    /// comments held by the header (ItemHeaderDoc) of an item list whose first item is a use/mod item
+    pub n_header_comment_before_use: usize,
 }
 
 struct Walker<'a> {
@@ -136,6 +140,8 @@ struct Walker<'a> {
     n_use_items: usize,
     n_trailing_comments: usize,
     in_trailing: bool,
+    comment_texts: Vec<String>,
+    n_header_comment_before_use: usize,
 }
 
 /// The prefix (slashes, exclamation marks) and the whitespace-separated words of one comment line.
@@ -181,6 +187,7 @@ impl<'a> Walker<'a> {
                     if self.in_trailing {
                         self.n_trailing_comments += 1;
                     }
+                    self.comment_texts.push(t.get_text(db).trim().to_string());
                     let (tag, words) = comment_words(t.get_text(db));
                     if words.is_empty() {
                         // an empty comment line is still a comment
@@ -233,6 +240,22 @@ impl<'a> Walker<'a> {
 
     fn children(&mut self, kids: &[SyntaxNode<'a>]) {
         let db = self.db;
+        if kids.len() >= 2
+            && kids[0].kind(db) == SyntaxKind::ItemHeaderDoc
+            && matches!(kids[1].kind(db), SyntaxKind::ItemUse | SyntaxKind::ItemModule)
+        {
+            self.n_header_comment_before_use += kids[0]
+                .descendants(db)
+                .filter(|d| {
+                    matches!(
+                        d.kind(db),
+                        SyntaxKind::TokenSingleLineComment
+                            | SyntaxKind::TokenSingleLineDocComment
+                            | SyntaxKind::TokenSingleLineInnerComment
+                    )
+                })
+                .count();
+        }
         let mut i = 0;
         while i < kids.len() {
             let k = kids[i].kind(db);
@@ -503,6 +526,8 @@ pub fn content<'a>(db: &'a SimpleParserDatabase, root: &SyntaxNode<'a>, cfg: Cfg
         n_use_items: 0,
         n_trailing_comments: 0,
         in_trailing: false,
+        comment_texts: vec![],
+        n_header_comment_before_use: 0,
     };
     w.node(root);
     let (full, d) = drop_token_tree_trailing_commas(w.out);
@@ -514,6 +539,8 @@ pub fn content<'a>(db: &'a SimpleParserDatabase, root: &SyntaxNode<'a>, cfg: Cfg
         n_opt_commas: w.n_opt_commas + d,
         n_use_items: w.n_use_items,
         n_trailing_comments: w.n_trailing_comments,
+        comment_texts: w.comment_texts,
+        n_header_comment_before_use: w.n_header_comment_before_use,
     }
 }
 
@@ -567,9 +594,9 @@ pub fn check(text: &str, cfg: Cfg) -> Verdict {
             return None;
         }
         let c_in = content(db, &root, cfg);
-        Some((c_in.full, c_in.n_tokens, c_in.n_comments, c_in.n_comment_words, c_in.n_opt_commas, c_in.n_use_items, c_in.n_trailing_comments))
+        Some((c_in.full, c_in.n_tokens, c_in.n_comments, c_in.n_comment_words, c_in.n_opt_commas, c_in.n_use_items, c_in.n_trailing_comments, c_in.comment_texts, c_in.n_header_comment_before_use))
     });
-    let (in_items, n_tokens, n_comments, n_cw, n_oc, n_use, n_trail_in) = match r {
+    let (in_items, n_tokens, n_comments, n_cw, n_oc, n_use, n_trail_in, cm_in, hdr_in) = match r {
         Ok(Some(x)) => x,
         Ok(None) => return v,
         Err(m) => {
@@ -603,9 +630,9 @@ pub fn check(text: &str, cfg: Cfg) -> Verdict {
         let c_out = content(db, &root, cfg);
         let glued = has_glued_comment(db, &root);
         let out2 = get_formatted_file(db, &root, cfg.to_config());
-        (derr, c_out.full, c_out.n_opt_commas, out2, glued, c_out.n_trailing_comments)
+        (derr, c_out.full, c_out.n_opt_commas, out2, glued, c_out.n_trailing_comments, c_out.comment_texts, c_out.n_header_comment_before_use)
     });
-    let (derr, out_items, n_oc_out, out2, glued, n_trail_out) = match r2 {
+    let (derr, out_items, n_oc_out, out2, glued, n_trail_out, cm_out, hdr_out) = match r2 {
         Ok(x) => x,
         Err(m) => {
             v.fails.push(("panic-reformat", m, String::new()));
@@ -625,6 +652,17 @@ pub fn check(text: &str, cfg: Cfg) -> Verdict {
     let k4 = "C11-K4-merge-drops-blank-line";
     let k5 = "C11-K5-macro-rule-comment-swallows-semicolon";
     let k6 = "C11-K6-file-start-comment-reattached";
+    let k7 = "C11-K7-fmt-skip-attribute-with-inner-whitespace";
+    let k8 = "C11-K8-merge-reorders-equal-use-items";
+    // K3 with a `/` operator before the glued comment: `8 /` + `// c` reads as `8` + `/// c`
+    let k3_slash = cm_out.iter().any(|co| {
+        co.starts_with("///")
+            && !cm_in.contains(co)
+            && cm_in.iter().any(|ci| {
+                let rest = &co[1..];
+                ci.as_str() == rest || ci.starts_with(rest)
+            })
+    });
     // shape: code tokens + tree structure; linear: code tokens and comment words in text order
     let shape = |v: &[Item]| -> Vec<Item> {
         // nodes that hold no code token (only comments) are dropped
@@ -643,23 +681,15 @@ pub fn check(text: &str, cfg: Cfg) -> Verdict {
     };
     let (si, so) = (shape(&in_items), shape(&out_items));
     let (ti, to) = (linear(&si), linear(&so));
-    // K5: exactly one `;` of the input is missing and a comment of the output ends with it
-    let k5_match = {
-        let mut m = false;
-        if ti.len() == to.len() + 1 {
-            let mut i = 0;
-            while i < to.len() && ti[i] == to[i] {
-                i += 1;
-            }
-            if matches!(&ti[i], Item::Tok(t) if t == "TerminalSemicolon:;") && ti[i + 1..] == to[i..] {
-                m = out_items.iter().any(|x| matches!(x, Item::Cw(_, w) if w.ends_with(';')))
-                    && text.contains("macro");
-            }
-        }
-        m
-    };
+    // K5: inside a `macro` declaration the code that follows a comment stays on the comment's line:
+    // a comment of the output is a comment of the input with code appended
+    let k5_match = text.contains("macro")
+        && cm_out.iter().any(|co| {
+            !cm_in.contains(co)
+                && cm_in.iter().any(|ci| co.len() > ci.len() && co.starts_with(ci.as_str()) && !co[ci.len()..].trim().is_empty())
+        });
     if let Some(d) = derr {
-        let sig = if k5_match { k5.to_string() } else { String::new() };
+        let sig = if k5_match { k5.to_string() } else if k3_slash { k3.to_string() } else { String::new() };
         v.fails.push(("output-does-not-parse", d.chars().take(600).collect(), sig));
     }
     if out2 != out1 {
@@ -675,9 +705,9 @@ pub fn check(text: &str, cfg: Cfg) -> Verdict {
         if k1_present && fixed.iter().map(|x| x.as_str()).eq(l2.iter().copied()) {
             sig.push(k1);
         }
-        // K4: merging is on, only blank lines next to use items disappear
+        // K4: sorting/merging is on, only blank lines in front of use items disappear
         let nb = |ls: &[&str]| -> Vec<String> { ls.iter().filter(|l| !l.trim().is_empty()).map(|l| l.to_string()).collect() };
-        if sig.is_empty() && cfg.merge() && nb(&l1) == nb(&l2) {
+        if sig.is_empty() && cfg.reorders() && nb(&l1) == nb(&l2) {
             let near_use = |k: usize| -> bool {
                 l1[k..].iter().find(|l| !l.trim().is_empty()).map(|l| {
                     let t = l.trim_start();
@@ -688,21 +718,38 @@ pub fn check(text: &str, cfg: Cfg) -> Verdict {
                 sig.push(k4);
             }
         }
-        // K6: sorting moved a comment-bearing use/mod item to the start of the file, where the
-        // parser attaches the comment to the file header instead of the item
-        let starts_with_comment = |t: &str| t.trim_start().starts_with("//");
-        if sig.is_empty() && cfg.reorders() && starts_with_comment(&out1) && !starts_with_comment(text) {
-            let first_code = out1.lines().find(|l| !l.trim().is_empty() && !l.trim_start().starts_with("//"));
-            if first_code.map(|l| {
+        // K6: sorting moved a comment-bearing use/mod item to the start of its item list (file or
+        // module body), where the parser attaches the comment to the list header (ItemHeaderDoc)
+        // instead of the item
+        if sig.is_empty() && cfg.reorders() && hdr_out > hdr_in {
+            sig.push(k6);
+        }
+        // K7: `#[cairofmt::skip]` written with whitespace inside the attribute path is not
+        // recognised on the first pass and is after it
+        if sig.is_empty() && out1.matches("cairofmt::skip").count() > text.matches("cairofmt::skip").count() {
+            sig.push(k7);
+        }
+        // K5 (see below) also breaks idempotence
+        if sig.is_empty() && k5_match {
+            sig.push(k5);
+        }
+        // K8: merging emits the unmerged (comment-bearing) use items behind the merged ones; with an
+        // equal-keyed duplicate the two swap on the second pass: same lines, other order
+        if sig.is_empty() && cfg.merge() {
+            let (mut a, mut b): (Vec<&str>, Vec<&str>) = (l1.clone(), l2.clone());
+            a.sort();
+            b.sort();
+            let is_use_or_comment = |l: &str| {
                 let t = l.trim_start();
-                t.starts_with("use ") || t.starts_with("pub use ") || t.starts_with("pub(") || t.starts_with("#[") || t.starts_with("mod ") || t.starts_with("pub mod ")
-            }).unwrap_or(false) {
-                sig.push(k6);
+                t.starts_with("use ") || t.starts_with("pub use ") || t.starts_with("//") || t.starts_with("#[") || t.starts_with("pub(")
+            };
+            if a == b && i < l1.len() && i < l2.len() && is_use_or_comment(l1[i]) && is_use_or_comment(l2[i]) {
+                sig.push(k8);
             }
         }
         // K3: a comment that stood on its own line was emitted behind the token before it
         // (glued or not): after re-parsing it is a trailing comment
-        if sig.is_empty() && (glued || n_trail_out > n_trail_in) {
+        if sig.is_empty() && (glued || n_trail_out > n_trail_in || k3_slash) {
             sig.push(k3);
         }
         if sig.is_empty() && k1_present {
@@ -721,7 +768,7 @@ pub fn check(text: &str, cfg: Cfg) -> Verdict {
     }
     if si != so {
         if ti != to {
-            let sig = if k5_match { k5.to_string() } else { String::new() };
+            let sig = if k5_match { k5.to_string() } else if k3_slash { k3.to_string() } else { String::new() };
             v.fails.push(("code-tokens-changed", first_diff(&ti, &to), sig));
         } else {
             v.fails.push(("code-structure-changed", first_diff(&si, &so), String::new()));
@@ -773,6 +820,8 @@ pub fn check(text: &str, cfg: Cfg) -> Verdict {
                 sig.push(k2);
             } else if k5_match {
                 sig.push(k5);
+            } else if k3_slash {
+                sig.push(k3);
             }
             v.fails.push(("comments-changed", first_diff(&mi, &mo), sig.join(" ")));
         } else if !cfg.reorders() && li != lo && si == so {
